@@ -196,8 +196,29 @@ func ruleSortKeysFromSortedSlice(c *Ctx, r *Reporter) {
 				return
 			}
 			mc, ok := call.Call.Args[1].(*ssa.MakeClosure)
+			helperArgs := map[ssa.Value]ssa.Value{} // parameter of a comparator-making helper -> the caller's argument
 			if !ok {
-				return
+				// sort.Slice(files, oldestFirst(files)): a helper that returns the comparator closure
+				hc, isCall := call.Call.Args[1].(*ssa.Call)
+				if !isCall || hc.Call.StaticCallee() == nil {
+					return
+				}
+				h := hc.Call.StaticCallee()
+				for _, ret := range Returns(h) {
+					if len(ret.Results) == 1 {
+						if m2, isMC := ret.Results[0].(*ssa.MakeClosure); isMC {
+							mc, ok = m2, true
+						}
+					}
+				}
+				if !ok {
+					return
+				}
+				for i, p := range h.Params {
+					if i < len(hc.Call.Args) {
+						helperArgs[p] = hc.Call.Args[i]
+					}
+				}
 			}
 			less := mc.Fn.(*ssa.Function)
 			sortedRoot := root(call.Call.Args[0])
@@ -230,6 +251,15 @@ func ruleSortKeysFromSortedSlice(c *Ctx, r *Reporter) {
 				}
 				if bound == nil {
 					bound = b
+				}
+				if al, isCell := bound.(*ssa.Alloc); isCell && len(helperArgs) > 0 {
+					// a captured parameter of the helper is spilled into a cell
+					if sv := singleStore(al); sv != nil {
+						bound = sv
+					}
+				}
+				if a, viaHelper := helperArgs[bound]; viaHelper {
+					bound = a
 				}
 				if bound != sortedRoot && root(bound) != sortedRoot {
 					foreign = append(foreign, Path(base)+" at "+c.InsPos(x))
@@ -1396,13 +1426,23 @@ func valueNonNil(v ssa.Value, b *ssa.BasicBlock, d int) bool {
 		if f := x.Call.StaticCallee(); f != nil && strings.HasPrefix(f.Name(), "New") {
 			return true
 		}
+	case *ssa.Extract:
+		// first result of a constructor (New*) behind its error check: non-nil by convention when the call did not fail
+		if call, ok := x.Tuple.(*ssa.Call); ok && x.Index == 0 {
+			if f := call.Call.StaticCallee(); f != nil && strings.HasPrefix(f.Name(), "New") {
+				okFact := callOKFactFor(call)
+				if GuardedBy(b, okFact) {
+					return true
+				}
+			}
+		}
 	case *ssa.Alloc:
 		return true
 	case *ssa.Phi:
 		for i, e := range x.Edges {
 			if !valueNonNil(e, x.Block().Preds[i], d+1) {
 				// the edge may come from the non-nil side of a test on the value itself
-				if knownNilnessOnEdge(e, x.Block().Preds[i], x.Block()) != +1 {
+				if knownNilnessOnEdge(e, x.Block().Preds[i], x.Block()) != +1 && !ctorOKOnEdge(e, x.Block().Preds[i], x.Block()) {
 					return false
 				}
 			}
@@ -1795,4 +1835,46 @@ func ruleComparatorNoSubtraction(c *Ctx, r *Reporter) {
 	})
 	r.Check(len(bad) == 0, "memtable.entry.compareWithEntry:arithmetic", c.FnPos(fn), "sequence numbers are compared, not subtracted",
 		"the comparator subtracts unsigned sequence numbers ("+strings.Join(bad, "; ")+"): for numbers 2^63 or more apart the sign of the difference flips, a newer version is linked behind an older one and iteration yields the stale version first")
+}
+
+// callOKFactFor: the fact "this call's error result is nil" (for a call whose last result is an error).
+func callOKFactFor(call *ssa.Call) Fact {
+	return func(cond ssa.Value) (bool, bool) {
+		v, trueNonNil, ok := nilTest(cond)
+		if !ok {
+			return false, false
+		}
+		ex, isEx := v.(*ssa.Extract)
+		if !isEx || ex.Tuple != ssa.Value(call) || !isErrorType(ex.Type()) {
+			return false, false
+		}
+		return !trueNonNil, trueNonNil
+	}
+}
+
+// ctorOKOnEdge: e is the first result of a New* call and the edge pred->succ is the err == nil side of the test of that
+// call's error.
+func ctorOKOnEdge(e ssa.Value, pred, succ *ssa.BasicBlock) bool {
+	ex, ok := e.(*ssa.Extract)
+	if !ok || ex.Index != 0 || len(pred.Instrs) == 0 {
+		return false
+	}
+	call, ok := ex.Tuple.(*ssa.Call)
+	if !ok {
+		return false
+	}
+	if f := call.Call.StaticCallee(); f == nil || !strings.HasPrefix(f.Name(), "New") {
+		return false
+	}
+	iff, ok := pred.Instrs[len(pred.Instrs)-1].(*ssa.If)
+	if !ok {
+		return false
+	}
+	t, f := callOKFactFor(call)(iff.Cond)
+	for i, s := range pred.Succs {
+		if s == succ && ((i == 0 && t) || (i == 1 && f)) {
+			return true
+		}
+	}
+	return false
 }
